@@ -511,6 +511,24 @@ def build(spec, logs=None, fault=None):
     return N, sim_kwargs(spec)
 
 
+def tracker_params(spec):
+    """Parameters of the parameterised trackers, derived deterministically from the spec; orders are deliberately not always
+    ascending (the meaning of a tracker state must follow the order the user gave)."""
+    n = spec['n']; classes = list(spec['classes'])
+    r = random.Random(spec['seed'] * 7 + 1)
+    observed = list(range(0, n, 2)) if n < 3 or r.random() < 0.5 else r.sample(range(n), r.randint(1, n))
+    if n > 1:
+        idx = list(range(n)); r.shuffle(idx) if r.random() < 0.5 else None
+        k = r.randint(1, n - 1)
+        groups = [idx[:k], idx[k:]] if r.random() < 0.7 else [list(range(0, n, 2)), list(range(1, n, 2))]
+        if r.random() < 0.3: groups = groups[::-1]
+    else:
+        groups = [[0]]
+    co = list(classes)
+    if r.random() < 0.5: co = co[::-1]
+    return {'observed': observed, 'groups': groups, 'class_order': co}
+
+
 def sim_kwargs(spec):
     n = spec['n']; classes = spec['classes']
     skw = {}
@@ -521,9 +539,10 @@ def sim_kwargs(spec):
     t = spec.get('tracker')
     if t:
         T = ciw.trackers
-        if t == 'NodePopulationSubset': skw['tracker'] = T.NodePopulationSubset(list(range(0, n, 2)))
-        elif t == 'GroupedNodePopulation': skw['tracker'] = T.GroupedNodePopulation([list(range(0, n, 2)), list(range(1, n, 2))] if n > 1 else [[0]])
-        elif t == 'NodeClassMatrix': skw['tracker'] = T.NodeClassMatrix(list(classes))
+        tp = tracker_params(spec)
+        if t == 'NodePopulationSubset': skw['tracker'] = T.NodePopulationSubset(list(tp['observed']))
+        elif t == 'GroupedNodePopulation': skw['tracker'] = T.GroupedNodePopulation([list(g) for g in tp['groups']])
+        elif t == 'NodeClassMatrix': skw['tracker'] = T.NodeClassMatrix(list(tp['class_order']))
         else: skw['tracker'] = getattr(T, t)()
     if spec.get('deadlock'):
         skw['deadlock_detector'] = ciw.deadlock.StateDigraph()
